@@ -11,11 +11,14 @@ var junkArgs = []int{0, 1, -1, 7, 1 << 40, -5, 2, 3}
 func recordNext(m *Model, arg int) Op {
 	choosing := m.choosing != nil && (m.pending == nil || m.pending.Done)
 	wasFaulted := m.faulted
+	nc := len(m.calls)
 	r := m.Next(arg)
 	op := Op{K: "next", Arg: arg, Choosing: choosing}
 	if !wasFaulted {
 		op.Exp = &r
 		op.ExpStore = canonStore(m.store)
+		op.ExpCalls = append([]string{}, m.calls[nc:]...)
+		op.CallsKnown = true
 	}
 	if gStats != nil {
 		// abstract state of the protocol: host view x current node x continuation depth x pending kind x response kind
